@@ -13,7 +13,7 @@ let geti k d l = int_of_string (get k (string_of_int d) l)
    call k of thread t in round r allocates one block of this many bytes. *)
 let asize t r k = 64 * (t + 1) + 8 * r + k + 1
 
-type case = { t : int; r : int; n : int; dout : bool; din : bool; grd : bool; faults : (int * int * int) list; test : bool; noinfo : int; mask : string list }
+type case = { t : int; r : int; n : int; dout : bool; din : bool; grd : bool; faults : (int * int * int) list; test : bool; noinfo : int; mask : string list; tune : bool; sizes : int list }
 
 (* fault token: t:r:g:k | t:r:c:k | t:r:o:k | t:r:i:k  (generator, call, drop of output, drop of input) *)
 let pos_of n dout din ph k =
@@ -35,7 +35,31 @@ let parse_case line =
         | [t; r; ph; k] -> (int_of_string t, int_of_string r, pos_of n dout din ph (int_of_string k))
         | _ -> failwith "fault") (String.split_on_char ',' s) in
   { t = geti "T" 2 l; r = geti "R" 1 l; n; dout; din; grd = get "guard" "1" l = "1"; faults; test = get "test" "0" l = "1"; noinfo = geti "noinfo" (-1) l;
-    mask = (match get "mask" "" l with "" -> [] | m -> String.split_on_char ',' m) }
+    mask = (match get "mask" "" l with "" -> [] | m -> String.split_on_char ',' m);
+    tune = get "tune" "0" l = "1"; sizes = [] }
+
+(* sample size of round r: constant, or (tuned runs) read off the log *)
+let size_of (c : case) r =
+  match c.sizes with
+  | [] -> c.n
+  | l -> if r < List.length l then List.nth l r else List.nth l (List.length l - 1)
+
+(* Tuned runs are history-driven: the sample sizes 1, 2, 4, ... of the rounds are what the
+   sampling loop chose (C19); they are read off the caller's log as the number of generator
+   calls before each of its start timestamps. *)
+let with_sizes (c : case) (toks_ : string list) : case =
+  if not c.tune then c else begin
+    let sizes = ref [] and g = ref 0 in
+    List.iter (fun tok -> if tok = "0.g" then incr g else if tok = "0.s" then (sizes := !g :: !sizes; g := 0)) toks_;
+    let sizes = List.rev !sizes in
+    { c with sizes; r = List.length sizes; n = (match sizes with [] -> c.n | x :: _ -> x) }
+  end
+
+(* first recorded round of a tuned run: the round that ends tuning (samples.clear() before it is pushed) *)
+let first_recorded (c : case) =
+  match List.rev c.sizes with
+  | [] -> 0
+  | last :: _ -> let rec idx i = function [] -> 0 | x :: r -> if x = last then i else idx (i + 1) r in idx 0 c.sizes
 
 (* mask: per round (cycling) one character per thread - what the thread does in each call of
    its timed section: '1' allocate (and leak), 'b' allocate and free, 'f' free a block that was
@@ -49,13 +73,14 @@ let fsize t = 32 * (t + 1) + 5
 let ssize_ t = 16 * (t + 1) + 3
 
 let config_of ?(fault_all = None) (c : case) : config =
-  { nthreads = nat_of_int c.t; nrounds = nat_of_int c.r; ssize = (fun _ -> nat_of_int c.n);
+  { nthreads = nat_of_int c.t; nrounds = nat_of_int c.r; ssize = (fun r -> nat_of_int (size_of c (int_of_nat r)));
     shp = { drop_out = c.dout; drop_in = c.din }; guard = c.grd; has_info = (fun i -> int_of_nat i <> c.noinfo);
     fault = (fun i r p -> match fault_all with
       | Some b -> b
       | None -> List.mem (int_of_nat i, int_of_nat r, int_of_nat p) c.faults);
     allocs = (fun i r p ->
       let p = int_of_nat p in
+      let c = { c with n = size_of c (int_of_nat r) } in
       if p >= c.n + 4 && p < 2 * c.n + 4
       then (let t = int_of_nat i and r = int_of_nat r in
             let a = n_of_small (asize t r (p - c.n - 4)) in
@@ -147,7 +172,9 @@ let model_allocs (c : case) cfg =
     let ((gc, gb), (sc, sb)) = summarise_re s in
     Printf.sprintf "%d.%d:%s,%s,%s,%s,%s,%s,%s,%s" (k / c.t) (k mod c.t)
       (string_of_n ac) (string_of_n ab) (string_of_n dc) (string_of_n db)
-      (string_of_n gc) (string_of_n gb) (string_of_n sc) (string_of_n sb)) (records cfg))
+      (string_of_n gc) (string_of_n gb) (string_of_n sc) (string_of_n sb))
+    (if c.tune then (let f = first_recorded c in run_records cfg (nat_of_int f) (nat_of_int (c.r - f)) O [])
+     else records cfg))
 
 let outcome_s = function
   | None -> "ok"
@@ -159,9 +186,10 @@ let outcome_s = function
 let run line =
   let (cs, impl) = split_sb line in
   let c = parse_case cs in
-  let cfg = config_of c in
   let (_, ilog, _) = split_impl impl in
   let (log, toks_) = parse_log ilog in
+  let c = with_sizes c toks_ in
+  let cfg = config_of c in
   let fuel = measure cfg (init cfg) in
   let s0 = taus fuel cfg (init cfg) in
   let ((acc, st), pend) = replay fuel cfg s0 [] log O in
@@ -171,7 +199,7 @@ let run line =
   let logpart =
     if acc < List.length toks_ then accepted ^ (if acc > 0 then " " else "") ^ Printf.sprintf "REJECT@%d" acc
     else accepted in
-  let spec_ok = log_sb (nat_of_int c.t) (nat_of_int c.n) log in
+  let spec_ok = log_sb (nat_of_int c.t) cfg.ssize log in
   let outcome =
     match st.gp with
     | GEnd _ when acc = List.length toks_ && pend <> [] -> "leave-event-missing"
@@ -193,12 +221,14 @@ let run_sb line =
   match (try Some (split_impl impl) with Failure _ -> None) with
   | None -> verdict false ("outcome:" ^ impl)
   | Some (o, ilog, allocs) ->
-    let (log, _) = parse_log ilog in
+    let (log, toks_) = parse_log ilog in
+    let c = with_sizes c toks_ in
+    let cfg = config_of c in
     let faulty = c.faults <> [] in
     if o = "hang" then verdict false "hang"
     else if faulty && not (String.length o >= 6 && String.sub o 0 6 = "panic ") then verdict false ("no-caller-panic:" ^ o)
     else if (not faulty) && o <> "ok" then verdict false ("unexpected-outcome:" ^ o)
-    else if not (log_sb (nat_of_int c.t) (nat_of_int c.n) log) then verdict false "phase-order"
+    else if not (log_sb (nat_of_int c.t) cfg.ssize log) then verdict false "phase-order"
     else if (not faulty) && allocs <> model_allocs c cfg then verdict false "foreign-or-missing-allocations"
     else "true"
 
